@@ -33,7 +33,7 @@ ASSUMPTIONS = [
 PARTIAL = ["progress (every thread eventually terminates) is not stated: it needs a fairness assumption on the schedule"]
 TRUSTED = ["sys.settrace-based deterministic scheduler (harness/c07.py)", "monkey-patched Av._CACHE_LOCK"]
 
-HANG_S = 60.0
+HANG_S = 15.0
 
 
 def worker_init():
@@ -70,6 +70,23 @@ class SchedLock:
 
     def release(self):
         self.__exit__()
+
+
+class _LockShim:
+    """stands in for the `multiprocessing` / `threading` module object inside permset.py: lock
+    factories hand out scheduler-aware locks, everything else is forwarded"""
+
+    def __init__(self, real, sch):
+        self._real = real
+        self._sch = sch
+
+    def Lock(self, *a, **k):
+        return SchedLock(self._sch)
+
+    RLock = Lock
+
+    def __getattr__(self, name):
+        return getattr(self._real, name)
 
 
 class Scheduler:
@@ -180,8 +197,19 @@ def run_conc(basis_str, queries, seed, policy, precreate):
     Av.clear_cache()
     rng = random.Random("%s|%s|%s|%s" % (basis_str, queries, seed, policy))
     sch = Scheduler(rng, policy)
-    old_lock = PS.Av._CACHE_LOCK
-    PS.Av._CACHE_LOCK = SchedLock(sch)
+    # every lock the class owns, and every lock it may create later through the `multiprocessing` /
+    # `threading` names of its module, is replaced by a scheduler-aware lock (restored afterwards)
+    saved_attrs = {}
+    for name, val in list(vars(PS.Av).items()):
+        if hasattr(val, "acquire") and hasattr(val, "release"):
+            saved_attrs[name] = val
+            setattr(PS.Av, name, SchedLock(sch))
+    saved_mods = {}
+    for modname in ("multiprocessing", "threading"):
+        real = getattr(PS, modname, None)
+        if real is not None and not isinstance(real, _LockShim):
+            saved_mods[modname] = real
+            setattr(PS, modname, _LockShim(real, sch))
     try:
         shared = make_class(basis_str) if precreate else None
 
@@ -214,7 +242,10 @@ def run_conc(basis_str, queries, seed, policy, precreate):
         keys = "/".join(fseqs(sorted(tuple(p) for p in lv)) for lv in av.cache) if av is not None else ""
         return outs, list(sch.acq), keys, sch.hung, sch.steps
     finally:
-        PS.Av._CACHE_LOCK = old_lock
+        for name, val in saved_attrs.items():
+            setattr(PS.Av, name, val)
+        for modname, real in saved_mods.items():
+            setattr(PS, modname, real)
 
 
 def oracle_outs(basis_str, queries):
